@@ -27,6 +27,20 @@ def enum_filters(ctx, rr):
     for qual, kind, marks in specs:
         u = P.unit(qual)
         loops = [f for f in ast.walk(u.node) if isinstance(f, ast.For)]
+        if not loops and kind == 'count':
+            # comprehension form: sum(1 for n in self.nodes_iter() if <marks>)
+            gens = [g for g in ast.walk(u.node) if isinstance(g, ast.GeneratorExp) and isinstance(g.elt, ast.Constant) and g.elt.value == 1 and len(g.generators) == 1]
+            if len(gens) == 1:
+                comp = gens[0].generators[0]
+                conds = []
+                for c_ in comp.ifs:
+                    conds += (c_.values if isinstance(c_, ast.BoolOp) and isinstance(c_.op, ast.And) else [c_])
+                got = sorted('.' + ast.unparse(c_).split('.', 1)[1] for c_ in conds if isinstance(c_, ast.Call) and '.' in ast.unparse(c_))
+                okc = got == sorted(marks) and len(got) == len(conds) and isinstance(comp.iter, ast.Call) and any(t.name == 'nodes_iter' for t in P.targets(comp.iter))
+                rr.ob(ctx.where(u, gens[0]), '%s counts exactly the nodes with %s (comprehension over every block)' % (qual, ' and '.join(marks)), ok=okc)
+                if not okc:
+                    rr.fail(ctx.finding('R-ENUM-FILTERS', u, gens[0], '%s: the counting comprehension filters by %s instead of %s' % (qual, got, marks)))
+                continue
         if not loops:
             raise AnalysisError('R-ENUM-FILTERS: %s no longer iterates' % qual)
         lp = loops[-1]
@@ -380,14 +394,15 @@ def storage_sem(ctx, rr):
     r = P.method('MemoryStorage', 'read')
     w = P.method('MemoryStorage', 'write')
     bp_r = r.call_params[0]
-    slices = [ast.unparse(x.slice).replace(' ', '') for x in ast.walk(r.node) if isinstance(x, ast.Subscript) and isinstance(x.slice, ast.Slice) and ast.unparse(x.value) == 'self.array']
+    from ..dataflow import rtext
+    slices = [rtext(P, r, x.slice) for x in ast.walk(r.node) if isinstance(x, ast.Subscript) and isinstance(x.slice, ast.Slice) and ast.unparse(x.value) == 'self.array']
     ok = bool(slices) and all(s == '%s:%s+self.block_size' % (bp_r, bp_r) for s in slices)
     rr.ob(ctx.where(r), 'MemoryStorage.read returns bytes [block, block + block_size)', ok=ok)
     if not ok:
         rr.fail(ctx.finding('R-STORAGE-SEM', r, r.node, 'MemoryStorage.read slices %s instead of [block : block + block_size]' % slices, stmt='memory read slice'))
     mm = P.method('MemMapStorage', 'read')
     bp_m = mm.call_params[0]
-    slices = [ast.unparse(x.slice).replace(' ', '') for x in ast.walk(mm.node) if isinstance(x, ast.Subscript) and isinstance(x.slice, ast.Slice)]
+    slices = [rtext(P, mm, x.slice) for x in ast.walk(mm.node) if isinstance(x, ast.Subscript) and isinstance(x.slice, ast.Slice)]
     ok = bool(slices) and all(s == '%s:%s+self.block_size' % (bp_m, bp_m) for s in slices)
     rr.ob(ctx.where(mm), 'MemMapStorage.read returns bytes [block, block + block_size)', ok=ok)
     if not ok:
@@ -514,8 +529,22 @@ def hierarchy(ctx, rr):
             rr.fail(ctx.finding('R-HIERARCHY', u, inner[0], '%s: %s' % (qual, msg), detail={'row': r.show()[:300]}))
         # the walk starts at the node of each prefix
         c = inner[0].iter
-        ok = c.args and isinstance(c.args[0], ast.Name) and any(isinstance(a, ast.Assign) and names_in_target(a.targets[0]) == [c.args[0].id] and isinstance(a.value, ast.Call)
-                                                                 and any(t.name == 'lru_node' for t in P.targets(a.value)) for a in ast.walk(u.node))
+
+        def comes_from_lru_node(name, seen=()):
+            if name in seen:
+                return False
+            defs_ = [a for a in ast.walk(u.node) if isinstance(a, ast.Assign) and name in names_in_target(a.targets[0])]
+            if not defs_:
+                return False
+            for a in defs_:
+                v = a.value
+                if isinstance(v, ast.Call) and any(t.name == 'lru_node' for t in P.targets(v)):
+                    continue
+                if isinstance(v, ast.Name) and comes_from_lru_node(v.id, seen + (name,)):
+                    continue
+                return False
+            return True
+        ok = c.args and isinstance(c.args[0], ast.Name) and comes_from_lru_node(c.args[0].id)
         rr.ob(ctx.where(u, c), '%s starts its walk at the node of the prefix' % qual, ok=bool(ok))
         if not ok:
             rr.fail(ctx.finding('R-HIERARCHY', u, c, '%s does not start its walk at lru_node(prefix)' % qual))
@@ -555,9 +584,15 @@ def rules_to_apply(ctx, rr):
     # the rule functions apply the pattern with search() and return the whole match
     for nm in ('__apply_webentity_creation_rule', '__apply_webentity_default_creation_rule'):
         f = P.method('Traph', nm)
-        rets = [ast.unparse(x.value) for x in P.own(f, ast.Return) if x.value is not None and not (isinstance(x.value, ast.Constant))]
-        calls = [c.func.attr for c in P.own(f, ast.Call) if isinstance(c.func, ast.Attribute)]
-        ok = 'search' in calls and all(x.endswith('.group()') for x in rets) and bool(rets)
+        rws = tables(ctx, f, iters=1, keep=lambda n_, c: n_ in ('search', 'group', 'match', 'fullmatch'))
+        ok = bool(rws)
+        for r_ in rws:
+            ret = [e for e in r_.events if e.kind == 'return']
+            srch = r_.calls('search')
+            txt = ret[0].text if ret else ''
+            ok = ok and bool(srch) and (txt == 'None' or txt.endswith('.group()'))
+        ok = ok and any(([e for e in r_.events if e.kind == 'return'] or [None])[0] is not None and
+                        [e for e in r_.events if e.kind == 'return'][0].text.endswith('.group()') for r_ in rws)
         rr.ob(ctx.where(f), '%s returns the text matched by the rule pattern' % nm, ok=ok)
         if not ok:
             rr.fail(ctx.finding('R-RULES-TO-APPLY', f, f.node, '%s no longer returns regexp.search(lru).group()' % nm, stmt=nm))
